@@ -25,7 +25,19 @@ def how_class(how):
 
 
 # ------------------------------------------------------------------ constants of a scenario
+def epoch_script(scn):
+    """scenario flag epoch=2: the SECOND run of the same runtime is what is validated; what was
+    adopted after the first run ended counts as queued before (this) start"""
+    script = scn["script"]
+    if scn.get("epoch") != 2:
+        return script
+    i = next(k for k, o in enumerate(script) if o["op"] == "reaccept_start")
+    j = max(k for k, o in enumerate(script[:i]) if o["op"] == "wait_end")
+    return [dict(o, op="accept") if o["op"] == "reaccept_start" else o for o in script[j + 1:]]
+
+
 def consts_of(scn):
+    scn = dict(scn, script=epoch_script(scn))
     pay = dict(scn["payloads"])
     svc = dict(scn.get("services", {}))
     allp = {**pay, **svc}
@@ -43,6 +55,11 @@ def consts_of(scn):
             ends[op["p"]].add(how_class(op["how"]))
         elif o == "execute":
             execs.append(allp[op["p"]]["flavour"])
+            x = allp[op["p"]]
+            while x.get("nested"):
+                # the executed payload executes another one itself: the next call number
+                x = allp[x["nested"]]
+                execs.append(x["flavour"])
         elif o == "bg" and not seen_accept:
             pre.add(op["inner"]["p"])
         elif o == "race_adopts" and not seen_accept:
@@ -221,6 +238,10 @@ def run_all(scenarios, parallel=16):
 # ------------------------------------------------------------------ normalisation
 def normalize(scn, raw):
     ev = raw["events"]
+    if scn.get("epoch") == 2:
+        # keep what happened after the first run ended; the second accept is runner 1 of the epoch
+        cut = next((i for i, e in enumerate(ev) if e["e"] == "accept.ret" and e.get("r") == 1), -1)
+        ev = [dict(e, r=1) if e["e"] in ("accept.call", "accept.ret") and e.get("r") == 2 else e for e in ev[cut + 1:] if e["e"] != "guard.release"]
     c = consts_of(scn)
     svc = set(c["services"])
     # which runner a hook event belongs to: the latest accept.call on its thread before it
